@@ -3,6 +3,7 @@
 * `RU_<path>_<methods>`: a second, independent copy of the ROUTE-family handlers over the C07 path
   alphabet, so that a route table can contain two *different* routes with the same path pattern and the
   same method guard (e.g. the same custom method twice on one path, DESIGN §7 item 6).
+* `RT_<path>_GF` / `RU_<path>_GF`: a guard that MIXES a standard and a custom method (`GET` + `FOO`).
 * `RFB<k>`: fallbacks that log the `AllowedMethods` they receive; one distinct fallback per
   (table, blueprint) when several tables are packed into one blueprint, so that a request answered by
   the fallback of a *different* table is visible.
@@ -18,13 +19,14 @@ METHODS = {
     "foo": ('method = "FOO", allow(non_standard_methods)', ["FOO"]),
     "anyns": ("allow(any_method, non_standard_methods)", "ANYNS"),
 }
-N_FALLBACKS = 36
+MIXED = ('method = ["GET", "FOO"], allow(non_standard_methods)', ["GET", "FOO"])
+N_FALLBACKS = 44
 
 
 def gen(w, catalog):
     for pk, path in PATHS.items():
-        for mk, (attr, methods) in METHODS.items():
-            name = f"ru_{pk}_{mk}"
+        for prefix, mk, (attr, methods) in [("ru", mk, v) for mk, v in METHODS.items()] + [("rt", "gf", MIXED), ("ru", "gf", MIXED)]:
+            name = f"{prefix}_{pk}_{mk}"
             ident = name.upper()
             w(f"#[pavex::route({attr}, path = \"{path}\", id = \"{ident}\")]")
             w(f"pub fn {name}(p: &pavex::request::path::RawPathParams<'_, '_>) -> pavex::Response {{")
@@ -32,7 +34,7 @@ def gen(w, catalog):
             w(f"    rt::respond(\"h\", \"{ident}\")")
             w("}")
             catalog.append({"id": ident, "kind": "handler", "macro": "route", "inputs": [], "fallible": False, "err": None,
-                            "path": path, "methods": methods, "route_family": True, "route_copy": 2})
+                            "path": path, "methods": methods, "route_family": True, "route_copy": 1 if prefix == "rt" else 2})
     for k in range(N_FALLBACKS):
         name = f"rfb{k:02d}"
         ident = name.upper()
